@@ -185,6 +185,26 @@ func drawCmdCase(t *simrt.Tape, name string, thorough bool) cmdCase {
 		return c
 	}
 	recs := annotatedRecs(t, n, fastq)
+	if name == "obisummary" || name == "obicount" || name == "obicsv" {
+		// data sets as the other tools leave them: map-valued and list-valued attributes, each
+		// kind present on all records of the data set or on none (obiuniq / obiclean output)
+		hasMerged, hasStatus, hasWeight, hasList := t.Choose(2) == 1, t.Choose(2) == 1, t.Choose(2) == 1, t.Choose(3) == 2
+		for i := range recs {
+			smp := fmt.Sprintf("s%d", t.Choose(3))
+			if hasMerged {
+				recs[i].Annot["merged_sample"] = map[string]int{smp: 1 + t.Choose(4), "s9": 1}
+			}
+			if hasStatus {
+				recs[i].Annot["obiclean_status"] = map[string]string{smp: []string{"h", "i", "s"}[t.Choose(3)]}
+			}
+			if hasWeight {
+				recs[i].Annot["obiclean_weight"] = map[string]int{smp: 1 + t.Choose(20)}
+			}
+			if hasList {
+				recs[i].Annot["path"] = []int{1, 2 + t.Choose(3)}
+			}
+		}
+	}
 	if fastq {
 		c.Files["in.fastq"] = fastqText(recs, true)
 		c.Inputs = []string{"$D/in.fastq"}
